@@ -100,10 +100,11 @@ type Case struct {
 	ReqCT      string     `json:"req_ct,omitempty"`
 	ReqHeaders [][]string `json:"req_headers,omitempty"` // [key, value]
 	BodyHex    string     `json:"req_body_hex"`
-	Chunked    bool       `json:"chunked,omitempty"`  // unknown length
-	Pieces     []int      `json:"pieces,omitempty"`   // the body reaches the middleware in short reads of these sizes (rest in one)
-	LenBody    bool       `json:"len_body,omitempty"` // recorder mode: req.Body has a Len() method
-	Hijacker   bool       `json:"hijacker,omitempty"` // the downstream writer also implements http.Hijacker
+	Chunked    bool       `json:"chunked,omitempty"`       // unknown length
+	Pieces     []int      `json:"pieces,omitempty"`        // the body reaches the middleware in short reads of these sizes (rest in one)
+	LenBody    bool       `json:"len_body,omitempty"`      // recorder mode: req.Body has a Len() method
+	Hijacker   bool       `json:"hijacker,omitempty"`      // the downstream writer also implements http.Hijacker
+	DownRF     bool       `json:"down_readfrom,omitempty"` // the downstream writer also implements io.ReaderFrom (as *http.response does)
 	WithOpts   bool       `json:"with_opts,omitempty"`
 	Ops        []Op       `json:"ops"`
 	Obs        *Observed  `json:"observed,omitempty"`
@@ -313,6 +314,57 @@ type recWH struct {
 	*recW
 	http.Hijacker
 }
+
+// readFrom: the downstream writer as an io.ReaderFrom (net/http's *http.response is one, so
+// io.Copy(w, r) and the release of the buffered body end up here). The bytes go to the real
+// writer's ReadFrom when it has one; what it accepted is recorded like a Write.
+func (r *recW) readFrom(src io.Reader) (int64, error) {
+	var seen []byte
+	tee := readerFunc(func(p []byte) (int, error) {
+		n, err := src.Read(p)
+		if n > 0 {
+			r.noteHeader(200) // the writer commits before it takes the first byte
+			seen = append(seen, p[:n]...)
+		}
+		return n, err
+	})
+	var n int64
+	var err error
+	if rf, ok := r.under.(io.ReaderFrom); ok {
+		n, err = rf.ReadFrom(tee)
+	} else {
+		n, err = io.Copy(struct{ io.Writer }{r.under}, tee)
+	}
+	if n == 0 && err != nil && len(seen) > 0 {
+		r.refused++
+	}
+	if n > int64(len(seen)) {
+		n = int64(len(seen))
+	}
+	if n > 0 {
+		if k := len(r.events); k > 0 && r.events[k-1].Ev == "b" {
+			r.events[k-1].Hex += hex.EncodeToString(seen[:n])
+		} else {
+			r.events = append(r.events, Ev{Ev: "b", Hex: hex.EncodeToString(seen[:n])})
+		}
+	}
+	return n, err
+}
+
+type readerFunc func(p []byte) (int, error)
+
+func (f readerFunc) Read(p []byte) (int, error) { return f(p) }
+
+type recWRF struct{ *recW }
+
+func (r recWRF) ReadFrom(src io.Reader) (int64, error) { return r.readFrom(src) }
+
+type recWHRF struct {
+	*recW
+	http.Hijacker
+}
+
+func (r recWHRF) ReadFrom(src io.Reader) (int64, error) { return r.readFrom(src) }
 
 // ---------------------------------------------------------------- generated handler
 
@@ -594,9 +646,17 @@ func exchange(c *Case, s *server, wrapped bool) (*runOut, error) {
 		rec = &recW{under: w, strict: c.Mode == "server", tracked: tracked}
 		if c.Hijacker && c.Mode == "server" {
 			if hj, ok := w.(http.Hijacker); ok {
-				h.ServeHTTP(recWH{rec, hj}, r)
+				if c.DownRF {
+					h.ServeHTTP(recWHRF{rec, hj}, r)
+				} else {
+					h.ServeHTTP(recWH{rec, hj}, r)
+				}
 				return
 			}
+		}
+		if c.DownRF {
+			h.ServeHTTP(recWRF{rec}, r)
+			return
 		}
 		h.ServeHTTP(rec, r)
 	})
@@ -953,6 +1013,11 @@ func Run(cfg vh.Config) (*vh.Result, error) {
 				return nil, err
 			}
 		}
+		for _, c := range readFromGridCases(cfg) {
+			if err := runCase(c); err != nil {
+				return nil, err
+			}
+		}
 		n := cfg.Pick(500, 24000)
 		for i := 0; i < n; i++ {
 			c := genCase(rng, cfg, i)
@@ -1148,6 +1213,12 @@ func classify(c *Case, d vh.Counter) {
 	}
 	if rf {
 		d.Inc("handler_readfrom")
+		if c.DownRF {
+			d.Inc("handler_readfrom_into_readerfrom_writer")
+		}
+	}
+	if c.DownRF {
+		d.Inc("writer_is_readerfrom")
 	}
 	if reads {
 		d.Inc("handler_reads_body")
